@@ -183,6 +183,15 @@ def corpus_cases():
     lines = ["SOLUTION 1", " temp 10", " -water 100", "GAS_PHASE 1", " -fixed_volume", " -volume 0.01", " -temperature 10", " H2O(g) 1.0"]
     out.append(dict(kind="fixedV", db="phreeqc.dat", gases=gases, tc=10.0, vol=0.01, ptot=1.0, p_init=[1.0], heads=heads,
                     input="\n".join(lines + pl + ["END"]) + "\n", corpus=True))
+    # history repaired by /repo 648a6839: a listed component that is not in the model kept p_soln_x of the previous simulation,
+    # which let a spurious fixed-pressure phase appear in the second simulation; must pass now
+    gases = ["CO2(g)", "H2O(g)"]
+    pl, heads = punch_block(gases)
+    lines = ["SOLUTION 1", " temp 25", "GAS_PHASE 1", " -fixed_pressure", " -pressure 0.5", " -volume 1", " CO2(g) 0.005", " H2O(g) 0.495"] + pl + [
+        "END", "SOLUTION 2", " temp 70", " units mol/kgw", " Na 1", " Cl 1", "GAS_PHASE 2", " -fixed_pressure", " -pressure 0.2985", " -volume 1",
+        " -temperature 70", " CO2(g) 0", " H2O(g) 0", "END"]
+    out.append(dict(kind="history", db="phreeqc.dat", gases=gases, tc=70.0, heads=heads, corpus=True,
+                    sims=[dict(kind="fixedP", ptot=0.5, vol=1.0), dict(kind="fixedP", ptot=0.2985, vol=1.0)], input="\n".join(lines) + "\n"))
     return out
 
 
